@@ -18,7 +18,7 @@ DISTINCT_RULE = (
     "with different limits, simulation and live double; a real ThreadPoolExecutor stress with bytecode-level yields inside add_transaction; distinct = (client limit class, "
     "hour-bucket changes, refused?, kind) cells at the control + thread rounds"
 )
-RULES = ["gate", "gated", "totals", "threaded-round"]
+RULES = ["gate", "gated", "totals", "threaded-round", "own-client"]
 MINIMA = {"quick": {"rule_gate": 8000, "rule_gated": 5000, "rule_totals": 800, "rule_threaded-round": 40}, "thorough": {"rule_gate": 300000, "rule_threaded-round": 1000}}
 ASSUMPTIONS = [
     "counting model B6 fed from the execution boundary (simulated responses / the double's call log), never from flumine's counters",
@@ -108,6 +108,16 @@ def run_sim(desc, out):
     tr = simrun.run_case(case)
     O.abort_violation(tr, out)
     client_of = {p["pid"]: p["client"] for p in tr.packages}
+    # clients do not affect each other: a request concerning an order is sent - and counted - under the client the strategy chose for
+    # that order (a replacement order belongs to the client of the order it replaces)
+    for p_ in tr.packages:
+        for o_ in p_["orders"]:
+            oo = tr.orders.get(o_)
+            ic_ = getattr(oo, "_vf_expected_client", None) if oo is not None else None
+            if ic_ is not None:
+                out.rule("own-client")
+                if ic_.username != p_["client"]:
+                    out.v("request-charged-to-another-client", {"kind": p_["kind"], "exec": "Simulated"}, order=o_, package_client=p_["client"], order_client=ic_.username)
     shadow = []
     for e in tr.effects:
         lo, hi = e["seq"], e.get("end_seq", 10**12)
